@@ -1,9 +1,9 @@
 CONSTANTS MaxFrags = 2
- Kinds = {"func", "method", "var", "const", "type", "grouped", "comment", "directive", "tmpl", "group1", "octal"}
+ Kinds = {"func", "method", "var", "const", "type", "grouped", "comment", "directive", "tmpl", "group1", "octal", "oddcomment"}
  Noises = {"none", "split"}
  FirstNoises = {"none", "leading_blank", "trailing_blank", "odd_spacing", "no_final_newline", "two_on_one", "split"}
  RefModes = {"all", "clash"}
- Modules = {"go1.18", "go1.21local", "go1.24.2"}
+ Modules = {"go1.18", "go1.21local", "go1.24.2", "ws1.24"}
 INIT GenInit
 NEXT GenNext
 INVARIANT EmitCase
